@@ -60,10 +60,10 @@ CHECKS = {
         technique="TLA+ contract evaluated by TLC on recorded runs (trace validation) + negative controls"),
     "C13": dict(
         category="model_checking",
-        text="Determinism.tla: an observation of one execution is (data, set of error messages, per service the bag of sub-requests); for one gateway and one (operation, fault plan) every execution must yield the first observation again. Each generated operation is executed 6 (quick) / 25 (thorough) times on the same gateway - plain and caching planner - while Go randomises map iteration and the fake transport perturbs the completion order of the concurrent calls with seeded delays; a third of the operations run under a fixed injected fault tied to one sub-request by identity. TLC validates the recorded observations (17k quick / 830k thorough executions).",
+        text="Determinism.tla: an observation of one execution is (data, set of error messages, per service the bag of sub-requests); for one gateway and one (operation, fault plan) every execution must yield the first observation again. Each generated operation is executed 6 (quick) / 25 (thorough) times on the same gateway - plain and caching planner - while Go randomises map iteration and the fake transport perturbs the completion order of the concurrent calls with seeded delays; half of the operations run under a fixed injected fault tied to sub-requests by identity or under sparse knowledge (every service answers node: null for a fixed part of the entities, in every call). Strata: core, skeleton (objects holding nothing but object-valued fields), abstract types, root node(id:) queries. ExecMerge.tla models the merge of one depth's results in completion order: TLC shows it order-independent with the rule the code uses (a null never replaces an answer) and order-dependent with last-one-wins, and enumerates the completion orders of 2..4 concurrent calls, which are FORCED on the real executor through gated service calls (each call held at the fake transport, released one at a time, the next after the executor has reduced the previous result). TLC validates every recorded observation (60k quick / 830k+ thorough executions).",
         ref="DESIGN.md section 6 C13",
-        note="Nondeterminism is sampled over k executions, not enumerated: schedules inside the Go runtime are not controlled. Services answer the same way by construction (faults are tied to request identity, not batch position).",
-        technique="TLA+ contract (first observation = every observation) evaluated by TLC on recorded repeated executions (trace validation)"),
+        note="Map-iteration nondeterminism is sampled over k executions, not enumerated; completion orders of the calls of one depth are enumerated by TLC and forced (6 order combinations per operation, all permutations available up to 4 concurrent calls). Services answer the same way by construction (faults are tied to request identity, not batch position).",
+        technique="TLA+ model of merging in completion order (TLC; orders replayed on the real executor through gated calls) + TLA+ contract (first observation = every observation) evaluated by TLC on recorded repeated executions"),
     "C03": dict(
         category="model_checking",
         text="Merge.tla defines Merged(S), the union of the declarations of a set of service schemas (types by name, fields with result type and arguments incl. defaults, enum values, union members, interfaces, input fields, directives, the node entry point), order free by construction (TLC checks Merged(pi(S)) = Merged(S) for all permutations on every enumerated set). The real merger (ExtendMergerFunc, SanitizeNodeMergerFunc) is run on every permutation of (a) every set of 2 services over the grammar of MergeGen.tla and every set of 3 services over its reduced grammar, enumerated by TLC (a seeded slice in the quick tier), and (b) seeded generated sets of 1-4 services covering all type kinds; TLC validates the projected result schema against Merged(S) (MergeTrace, Enforce=C03).",
@@ -84,13 +84,13 @@ CHECKS = {
         technique="TLA+ declarative conflict definition + TLC enumeration of schema sets replayed on the real merger in all orders + TLC trace validation"),
     "C07": dict(
         category="model_checking",
-        text="HttpFront.tla is a grammar of request SHAPES (content type x JSON body shape x member classes of query/variables/operationName x batch element classes x multipart layout x 17 file-map path classes x 11 query-text classes incl. an interface without members, root __typename, introspection mixed with data) and Outcome(shape), what the property allows (422 / 200 with errors and data:null / 200 with a well-formed envelope; always: the handler returns and the next request is served). TLC enumerates all 1,768 shapes; the driver renders each to bytes (2 quick / 6 thorough renderings), sends it to the real Gateway.Handler of a real gateway, sends a canary, and TLC checks the recorded answer against Outcome (HttpFrontTrace). 1,500 (quick) / 20,000 (thorough) byte-mutated renderings per shard are checked against the shape-independent part of the property. The driver is a child process: a panic in a gateway goroutine is observed as its death.",
+        text="HttpFront.tla is a grammar of request SHAPES (content type x JSON body shape x member classes of query/variables/operationName x batch element classes x multipart layout x 19 file-map path classes incl. indexes beyond the int range x 12 query-text classes incl. an interface without members, root __typename, introspection mixed with data, introspection arguments from variables of the wrong JSON type; batch elements incl. introspection at any position) and Outcome(shape), what the property allows (422 / 200 with errors and data:null / 200 with a well-formed envelope; always: the handler returns and the next request is served). TLC enumerates all shapes (about 2,000); the driver renders each to bytes (2 quick / 6 thorough renderings), sends it to the real Gateway.Handler of a real gateway, sends a canary, and TLC checks the recorded answer against Outcome (HttpFrontTrace). 1,500 (quick) / 20,000 (thorough) byte-mutated renderings per shard are checked against the shape-independent part of the property. The driver is a child process: a panic in a gateway goroutine is observed as its death.",
         ref="DESIGN.md section 6 C07",
         note="\"All byte strings\" is covered as shape classes plus random byte mutations, not exhaustively; the handler is invoked in-process (a panic in the handler goroutine is caught by the driver and reported).",
         technique="TLA+ shape grammar + outcome function, TLC enumeration replayed on the real handler, TLC trace validation of the answers"),
     "C08": dict(
         category="model_checking",
-        text="BatchFront.tla models the batch fan-out of gateway.go (Run(i): operation i executed; Place(i): the reducer stored its result at index i; Emit); TLC checks InOrder for every interleaving (n<=3 quick, n<=4 thorough) and every behaviour is FORCED on the real handler through the hook gates of the batch-level AsyncMapReduce instance. BatchTrace.tla states the contract on observations: status 200, an array of exactly N results, result i = the result the same operation gets when sent alone to the same gateway. Also perturbed free batches of 0..30 operations (queries, mutation, introspection, invalid, failing downstream, slow) on plain and caching gateways: 1.6k (quick) / 30k (thorough) batches validated by TLC.",
+        text="BatchFront.tla models the batch fan-out of gateway.go (Run(i): operation i executed; Place(i): the reducer stored its result at index i; Emit); TLC checks InOrder for every interleaving (n<=3 quick, n<=4 thorough) and every behaviour is FORCED on the real handler through the hook gates of the batch-level AsyncMapReduce instance. BatchTrace.tla states the contract on observations: status 200, an array of exactly N results, result i = the result the same operation gets when sent alone to the same gateway. Also perturbed free batches of 0..30 operations (queries, mutation, introspection, invalid, unknown operation names with distinct messages, failing downstream, slow) on plain and caching gateways, burst batches (16 operations refused at the same point, all goroutines released at the same instant), and one shard built with the Go race detector (a data race between the goroutines of two operations of one batch is shared state between them): 3k (quick) / 30k (thorough) batches validated by TLC.",
         ref="DESIGN.md section 6 C08",
         note="Single results are observed on the real code right after the batch; downstream failure / slowness is selected by operation name so that it is the same alone and in a batch; nested fan-outs are not gated.",
         technique="TLA+ model of the fan-out (TLC, all interleavings) forced on the real handler via hook gates + TLC trace validation of batch-vs-single observations"),
